@@ -1463,6 +1463,10 @@ type c15LocalDef struct {
 	uses []*ast.Ident
 }
 
+// c15PropagateOnly, when set, restricts the propagation of single-definition locals to the definitions it accepts
+// (used by other properties' pre-passes, e.g. boolean flags only); nil = every pure definition.
+var c15PropagateOnly func(info *types.Info, o types.Object, def ast.Expr) bool
+
 func c15PropagateIn(c *Ctx, pk *packages.Package, info *types.Info, file *ast.File, fd *ast.FuncDecl) bool {
 	counts := c15DefsOf(info, fd.Body)
 	cands := map[types.Object]*c15LocalDef{}
@@ -1474,7 +1478,7 @@ func c15PropagateIn(c *Ctx, pk *packages.Package, info *types.Info, file *ast.Fi
 		case *ast.AssignStmt:
 			if t.Tok == token.DEFINE && len(t.Lhs) == 1 && len(t.Rhs) == 1 {
 				if id, ok := t.Lhs[0].(*ast.Ident); ok && id.Name != "_" {
-					if o := info.Defs[id]; o != nil && counts.count[o] == 1 && c15PureExpr(info, t.Rhs[0]) {
+					if o := info.Defs[id]; o != nil && counts.count[o] == 1 && c15PureExpr(info, t.Rhs[0]) && (c15PropagateOnly == nil || c15PropagateOnly(info, o, t.Rhs[0])) {
 						cands[o] = &c15LocalDef{obj: o, expr: t.Rhs[0], stmt: t, node: t}
 					}
 				}
@@ -1486,7 +1490,7 @@ func c15PropagateIn(c *Ctx, pk *packages.Package, info *types.Info, file *ast.Fi
 			}
 			vs := gd.Specs[0].(*ast.ValueSpec)
 			if len(vs.Names) == 1 && len(vs.Values) == 1 && vs.Names[0].Name != "_" {
-				if o := info.Defs[vs.Names[0]]; o != nil && counts.count[o] == 1 && c15PureExpr(info, vs.Values[0]) {
+				if o := info.Defs[vs.Names[0]]; o != nil && counts.count[o] == 1 && c15PureExpr(info, vs.Values[0]) && (c15PropagateOnly == nil || c15PropagateOnly(info, o, vs.Values[0])) {
 					cands[o] = &c15LocalDef{obj: o, expr: vs.Values[0], typ: vs.Type, stmt: t, node: vs}
 				}
 			}
